@@ -5,6 +5,7 @@ and run the full analysis on a text."""
 from fractions import Fraction
 
 import sympy as sp
+import exppoly
 
 
 def _c19_settings():
@@ -198,7 +199,7 @@ def task_c19_eval(task):
                 sub = {sp.Symbol(k): sp.Rational(v) for k, v in pt.items()}
                 try:
                     v = e.xreplace(sub)
-                    v = sp.nsimplify(v) if not v.is_Rational else v
+                    v = exppoly.exact(v) if not v.is_Rational else v
                     vals.append(f"{v.p}/{v.q}" if v.is_Rational else "?" + str(v))
                 except Exception as ex:  # noqa
                     vals.append("?" + type(ex).__name__)
@@ -237,7 +238,7 @@ def task_c19_analyze(task):
             vals = []
             for i in range(task.get("nmax", 6) + 1):
                 v = cf.subs(n, i)
-                v = sp.nsimplify(sp.simplify(v)) if not v.is_Rational else v
+                v = exppoly.exact(v) if not v.is_Rational else v
                 vals.append(f"{v.p}/{v.q}" if v.is_Rational else "?" + str(v))
             goals[g] = {"values": vals, "cf": str(cf)[:300], "exact": bool(solver.is_exact)}
         except BaseException as e:  # noqa
